@@ -626,6 +626,13 @@ impl<'a> GeneratorState<'a> {
                 Some(c) => c.clone(),
             };
             let code: &mut AssemblyCode = self.functions_code.get_mut(fx).unwrap();
+            // Nested inline functions multiply their callees: a function that cannot fit the
+            // 64 KB of the 6502 anyway is refused before it is built
+            if code.len() + code2.len() > 65536 {
+                return Err(self
+                    .compiler_state
+                    .syntax_error("Function too large after inline expansion", pos));
+            }
             code.append_code(&code2, self.inline_label_counter);
             code.append_label(format!(".endofinline{}", self.inline_label_counter))
         }
